@@ -257,6 +257,14 @@ func sshClassify(l string) (lineClass, string) {
 			return lcInvalid, typ
 		}
 		return lcTolerated, typ
+	case "sk-ssh-ed25519@openssh.com":
+		// string key(32), string application
+		k, ok1 := w.str()
+		app, ok2 := w.str()
+		if !ok1 || !ok2 || len(w) != 0 || len(k) != 32 || len(app) == 0 {
+			return lcInvalid, typ
+		}
+		return lcTolerated, typ
 	}
 	// types the harness does not generate: nothing can be said
 	return lcInvalid, typ
